@@ -82,14 +82,14 @@ def check_reference(ctx, case, arpa, kind):
     return ref, header, tg
 
 
-def one_corpus(ctx, wrappers, case0, wd, n_cfg, n_rep, label):
+def one_corpus(ctx, wrappers, case0, wd, n_cfg, n_rep, label, timeout=120):
     """All configurations x both output kinds of one corpus.  Returns True if a violation was reported."""
     found = False
     ntok = M.token_count(case0["corpus"])
     for kind, case, inter in variants(case0):
         cfgs = M.fixed_configs()
         # the smallest accepted -S for the tiny-block options, and a little above it
-        smin = M.smallest_memory(wrappers, case, wd, M.TINY)
+        smin = M.smallest_memory(wrappers, case, wd, M.TINY, timeout=timeout)
         if smin is not None:
             ctx.hist("smallest_S", "%d" % (smin // 64 * 64))
             cfgs.append(dict(mem="%db" % smin, opts=list(M.TINY), tkind="dir", sched="plain"))
@@ -104,7 +104,7 @@ def one_corpus(ctx, wrappers, case0, wd, n_cfg, n_rep, label):
         first = None            # first accepted run
         classes = {}
         for ci, cfg in enumerate(cfgs):
-            t = M.run_cfg(wrappers, case, wd, "r", cfg, inter)
+            t = M.run_cfg(wrappers, case, wd, "r", cfg, inter, timeout=timeout)
             cls = t["cls"]
             classes[cls] = classes.get(cls, 0) + 1
             pressure = ntok * (4 * case["order"] + 8) / float(M.mem_bytes(cfg["mem"]))
@@ -123,7 +123,7 @@ def one_corpus(ctx, wrappers, case0, wd, n_cfg, n_rep, label):
                 ctx.hist("tmp_left_behind", len(t["tmp_left"]))
             if cls == "config":
                 # a rejection depends on the configuration only: same class again
-                t2 = M.run_cfg(wrappers, case, wd, "r2", cfg, inter)
+                t2 = M.run_cfg(wrappers, case, wd, "r2", cfg, inter, timeout=timeout)
                 if t2["cls"] != "config":
                     ctx.violation("configuration rejected once and %s on repetition" % t2["cls"],
                                   {"stream": "lmplz-config", "corpus": case["corpus"].decode("latin-1"),
@@ -155,10 +155,12 @@ def one_corpus(ctx, wrappers, case0, wd, n_cfg, n_rep, label):
             c0, c1 = first[1], cfg
 
             def differs(c):
-                x = M.run_cfg(wrappers, c, wd, "s0", c0, inter)
-                y = M.run_cfg(wrappers, c, wd, "s1", c1, inter)
+                x = M.run_cfg(wrappers, c, wd, "s0", c0, inter, timeout=timeout)
+                y = M.run_cfg(wrappers, c, wd, "s1", c1, inter, timeout=timeout)
                 return x["cls"] == "ok" and y["cls"] == "ok" and M.first_diff(x["files"], y["files"]) is not None
-            small = M.shrink_lines(case, differs) if differs(case) else case
+            ctx.notes["byte_differences"] = ctx.notes.get("byte_differences", 0) + 1
+            # shrinking costs up to ~120 runs: only for the first two differences of a check run
+            small = M.shrink_lines(case, differs) if (ctx.notes["byte_differences"] <= 2 and differs(case)) else case
             x = M.run_cfg(wrappers, small, wd, "s0", c0, inter)
             y = M.run_cfg(wrappers, small, wd, "s1", c1, inter)
             d2 = M.first_diff(x["files"], y["files"]) if x["cls"] == y["cls"] == "ok" else None
@@ -284,7 +286,7 @@ def run(ctx):
                 cwd = os.path.join(wd, "c")
                 shutil.rmtree(cwd, ignore_errors=True)
                 # n_cfg configurations + n_rep repetitions for each of the two output kinds (see variants)
-                if one_corpus(ctx, wrappers, case, cwd, n_cfg, n_rep, kind):
+                if one_corpus(ctx, wrappers, case, cwd, n_cfg, n_rep, kind, timeout=(900 if kind == "big" else 120)):
                     found = True
     finally:
         shutil.rmtree(wd, ignore_errors=True)
